@@ -16,6 +16,7 @@ import Golib.Proof.C04Generic
 import Golib.Proof.C04SliceSeq
 import Golib.Proof.C04Client
 import Golib.Proof.C04Overflow
+import Golib.Proof.C04Cmp
 
 namespace Golib.C04
 
@@ -411,6 +412,71 @@ theorem c04_down_no_overflow :
   ⟨fun o f s i n h1 h2 h3 => down64_eq_down o f s i n h1 h2 h3,
    fun o f s i n h1 h2 => down64_guard o f s i n h1 h2,
    fun cmp f s i n h1 h2 h3 => down64NoGuard_panics cmp f s i n h1 h2 h3⟩
+
+/-- Comparator shapes. Every C04 theorem assumes exactly what `Heap`/`Slice` document for `cmp`: a
+strict weak order (`SWO`: irreflexive, transitive, incomparability transitive). Instances:
+`<` on the values; the REVERSE of any strict weak order (max-heaps, `gt`); comparison BY KEY with
+ties (distinguishable elements with equal keys are tied: `key`, `rkey`), i.e. the pull-back of any
+strict weak order along any function; and all four comparators of the harness (`cmpOf`).
+The hypothesis is necessary: `Golib/Findings/C04Cmp.lean` gives machine-checked runs of the model
+for the non-strict `<=` (the element `Pop` returns is preceded by a remaining one) and for the
+strict partial order `a + 1 < b`, whose incomparability is not transitive (after pushes 2,1,2,0
+all parent/child pairs are in order, yet `Peek`/`Pop` return 2 while 0 precedes it). -/
+theorem c04_comparators :
+    SWO (fun a b : Int => decide (a < b)) ∧
+    (∀ cmp, SWO cmp → SWO (fun a b => cmp b a)) ∧
+    (∀ cmp, SWO cmp → ∀ key : Int → Int, SWO (fun a b => cmp (key a) (key b))) ∧
+    (∀ name cmp, cmpOf name = some cmp → SWO cmp) :=
+  ⟨swo_lt, fun _ h => h.reverse, fun _ h key => h.byKey key, fun _ _ h => cmpOf_swo h⟩
+
+/-- Handles after `PopAll` / `Init`, in EVERY history (every state reachable by client calls is
+related to a spec state by `Rel`, `c04_heap_handles` (1)): let `e` be live in heap `h`. After
+`h.PopAll()` drained to the end, and after `h.Init(vs, c)` (any strict weak order `c`), the call does
+not panic and in the resulting state `e` reports `Index() == -1`, has no owner, is live in NO heap,
+`Remove(e)` and `Fix(e)` on EITHER heap (with any comparator) leave the whole memory unchanged, and
+`e` may be pushed again into either heap (`specPre` of `PushElement` holds). -/
+theorem c04_handles_after_exit (st : HState) (s : HSpec) (R : Rel st s) (h : Fin 2) (e : Nat)
+    (he : e ∈ s.live h) (op : HOp)
+    (hop : op = .popAll h ∨ ∃ c vs, SWO c ∧ op = .init h c vs) :
+    ∃ st' r, stepH st op = some (st', r) ∧ Rel st' (specStep s op r) ∧
+      st'.m.idx.get e = -1 ∧ st'.m.own.get e = none ∧ (∀ h', e ∉ (specStep s op r).live h') ∧
+      (∀ cmp (h' : Nat), st'.m.remove cmp h' e = some st'.m ∧ st'.m.fixElem cmp h' e = some st'.m) ∧
+      (∀ h' : Fin 2, specPre (specStep s op r) (.pushElem h' e)) := by
+  have hown : st.m.own.get e = some h.val := (mem_live_iff R h e).1 he
+  have hfr : e < s.fresh := by
+    rw [← R.fresh]
+    exact R.ok.core.ltf h.val h.isLt e ((R.ok.core.own e h.val h.isLt).1 hown)
+  have hoth : ∀ h' : Fin 2, h' ≠ h → e ∉ s.live h' := by
+    intro h' hne he'
+    have := (mem_live_iff R h' e).1 he'
+    rw [hown] at this
+    exact hne (Fin.ext (Option.some.inj this).symm)
+  have hpre : specPre s op := by
+    rcases hop with rfl | ⟨c, vs, hc, rfl⟩
+    · trivial
+    · exact hc
+  obtain ⟨st', r, hrun, _, R'⟩ := step_refines R op hpre
+  have hdead : ∀ h', e ∉ (specStep s op r).live h' := by
+    intro h'
+    rcases hop with rfl | ⟨c, vs, hc, rfl⟩
+    · simp only [specStep]
+      by_cases hne : h' = h
+      · subst hne; simp [setLive_self]
+      · rw [setLive_other s h _ h' hne]; exact hoth h' hne
+    · simp only [specStep]
+      by_cases hne : h' = h
+      · subst hne; rw [setLive_self]; intro hm
+        have := List.mem_range'_1.1 hm; omega
+      · rw [setLive_other s h _ h' hne]; exact hoth h' hne
+  have hfr' : e < (specStep s op r).fresh := by
+    rcases hop with rfl | ⟨c, vs, hc, rfl⟩
+    · exact hfr
+    · simp only [specStep]; omega
+  have ho := own_none_of_dead R' hdead
+  refine ⟨st', r, hrun, R', R'.ok.left e trivial (by rw [R'.fresh]; exact hfr') ho, ho, hdead, ?_,
+    fun h' => ⟨hfr', hdead⟩⟩
+  intro cmp h'
+  exact heap_handles_ignored cmp st'.m h' e (by rw [ho]; exact fun hh => by cases hh)
 
 /-- Non-vacuity of `specPre`: after `Push(7)` on heap A returned handle 0 and `Pop` returned it,
 handle 0 is allocated and live nowhere, so `B.PushElement(0)` is a call the client may make; and
